@@ -37,9 +37,18 @@ func init() {
 	reg("R-COMMIT-EMPTY", "In Tx.Commit every instruction that changes shared state or files is dominated by len(pendingWrites) != 0, so a read-only transaction (shared lock) changes nothing when it commits.", ruleCommitNoopWhenEmpty)
 	reg("R-LIVE", "Every *Entry / []*Entry that can reach a feasible return of Get, GetAll, RangeScan, PrefixScan or PrefixSearchScan (CFG specialised to offset 0 / no limit) is nil, individually dominated by the tombstone test and the expiry test on the record it derives from, or produced by a function with the same property; every IsExpired call receives (TTL, timestamp) of one record.", ruleLive)
 	reg("R-EXPIRY", "IsExpired, evaluated from its SSA form over a grid of (ttl, timestamp, now) on both sides of and exactly at the expiry instant, equals ttl != 0 && now >= timestamp+ttl; Record.IsExpired delegates with the record's own fields.", ruleExpiry)
+	reg("R-POS", "In the commit write loop the record is written at ActiveFile.writeOff of the file it is written to; every Hint built on the commit path takes dataPos from a read of that same location with no possible write to the offset or to DB.ActiveFile in between (effect summaries of intervening calls), and fileID from DB.ActiveFile.fileID with no rotation between writing and indexing; hints built while scanning record the scan offset and the id of the file being scanned.", rulePos)
+	reg("R-ACTIVEFILE", "Every assignment of a NewDataFile(getDataPath(X)) result to DB.ActiveFile is accompanied on all non-error paths by a store of X's value into that file's fileID (loads are resolved through dominating stores).", ruleActiveFile)
+	reg("R-UPDATE", "Record.UpdateRecord stores a parameter into every field of Record on all paths, and BPTree.Insert passes its own hint and entry to it for an existing key.", ruleUpdateRecord)
 }
 
 var properties = []Property{
+	{ID: "C01", Rules: []string{"R-LIVE", "R-EXPIRY", "R-POS", "R-ACTIVEFILE", "R-UPDATE", "R-RECOVER"},
+		Explain: "Decides, for the RAM index modes, that every returned entry passed the tombstone and expiry guards on all feasible paths (no offset/limit), that the expiry predicate equals its specification on a grid around the expiry instant, that index hints name the position and file the record was written to, that an overwrite replaces the whole record, and that only committed records are indexed after reopen.",
+		NotCov:  "functional correctness of the B+ tree (sorted order, every key found, inclusive range bounds), which are data-structure invariants over runtime values."},
+	{ID: "C02", Rules: []string{"R-LIVE"},
+		Explain: "Decides, for the sparse-mode read paths, that every returned entry passed the tombstone and expiry guards (Get on memory and disk branches; scans through the filtering merge function).",
+		NotCov:  "on-disk node layout, descent, bucket-meta ranges, rebuild on open - correctness of an external-memory B+ tree over runtime data."},
 	{ID: "C14", Rules: []string{"R-LOCKMAP", "R-LOCKCTX", "R-RO", "R-PUT", "R-COMMIT-EMPTY", "R-GLOBALS", "R-TXPAIR"},
 		Explain: "Decides the lock discipline that race freedom and snapshot reads rest on: writers take the exclusive lock, every access to database state holds the lock, read paths write nothing shared, only writable transactions can enqueue and an empty commit changes nothing, no process-global mutable state, no goroutines, Begin/Commit/Rollback pair up on all paths.",
 		NotCov:  "linearizability of observed histories, races on references a caller keeps after the transaction (ZMembers returns the live dictionary), scheduling-dependent behaviour."},
